@@ -10,6 +10,7 @@ import Mrpro.Model.Resample
 import Mrpro.Model.Rotation
 import Mrpro.Model.Load
 import Mrpro.Model.KDataOps
+import Mrpro.Model.MoveData
 open Lean M M.Proto
 
 def getTrajComp (j : Json) (k : String) : Except String TrajComp := do
@@ -171,6 +172,16 @@ def gridJson (g : Grid Nat) : Json :=
   Json.arr (List.map (fun (o : List (List Nat)) => Json.arr (List.map natsJson o).toArray) g).toArray
 def natssOf (j : Json) (k : String) : Except String (List (List Nat)) := do
   let a ← j.getObjValAs? (Array (Array Nat)) k; pure (a.toList.map (·.toList))
+
+def parseDKind (s : String) : Except String DKind :=
+  match s with | "bool" => pure .bool | "int" => pure .int | "float" => pure .float | "complex" => pure .complex | _ => throw "dkind"
+def showDKind : DKind → String | .bool => "bool" | .int => "int" | .float => "float" | .complex => "complex"
+partial def parseOTree (j : Json) : Except String OTree := do
+  match j.getObjVal? "n" with
+  | .ok (Json.arr cs) => pure (.node (← cs.toList.mapM parseOTree))
+  | _ =>
+    let id ← getNat j "id"; let k ← parseDKind (← getStr j "kind"); let b ← getNat j "bits"
+    pure (.leaf id ⟨k, b⟩)
 
 /-- one structural linear operator (forward or adjoint code path) on exact complex data -/
 def linop (j : Json) (x : Tensor CRat) : Except String (Except ErrKind (Tensor CRat)) := do
@@ -362,6 +373,15 @@ def handle (j : Json) : Except String Json := do
   | "split_label" =>
       let no ← getNat j "n_other"; let k2 ← getNat j "k2"; let k1 ← getNat j "k1"
       pure (Json.mkObj [("grid", gridJson (Grid.splitLabel no (← natssOf j "idx") k2 k1))])
+  | "move" =>
+      let tree ← parseOTree (← j.getObjVal? "tree")
+      let copy ← getBool j "copy"
+      let target ← match j.getObjVal? "target" with
+        | .ok Json.null | .error _ => pure none
+        | .ok t => do pure (some (⟨← parseDKind (← getStr t "kind"), ← getNat t "bits"⟩ : DType))
+      let r := tree.to (fun i => i + 1000000) copy target
+      pure (Json.mkObj [("leaves", Json.arr (r.leaves.map (fun p => Json.mkObj [("id", Json.num (JsonNumber.fromNat p.1)), ("kind", Json.str (showDKind p.2.kind)),
+        ("bits", Json.num (JsonNumber.fromNat p.2.bits))])).toArray)])
   | "norm_dims" =>
       let ndim ← getNat j "ndim"; let dims ← getInts j "dims"
       pure (match dims.mapM (normIndex ndim) with
